@@ -399,6 +399,15 @@ def rule_safe_seed(ctx):
     tt = ctx.cat.truth_table(mseed.group(1), {"s._check_safe": [0, 1], "creator_step._check_safe": [None, 0, 1]})
     wrong = [(a, b) for (a, b), v in tt.items() if bool(v) != (a == 1 and b in (None, 0))]
     ctx.check(not wrong, "scheduler.FILL_SAFE_UPDATE", "seeds = flagged steps whose creator is not flagged itself", f"seed predicate differs at (step flag, creator flag) = {wrong}: a step is seeded from the stale stored _safe of a creator that is recomputed in the same pass, MIN keeps the stale 0, the flag is cleared, and a step whose creators are all running or succeeded is never dispatched", "topmost flagged step seeds", where="scheduler.py FILL_SAFE_UPDATE")
+    # a node below a flagged step is reached from every flagged ancestor, and the flagged ancestor need not be its
+    # direct creator: of its rows the one derived from the topmost flagged ancestor (largest depth) is the only one
+    # that does not start from a stored value that the same statement is recomputing; MIN would keep a stale 0
+    final = nc[nc.rindex(")") + 1:] if False else nc.split(") SELECT", 1)[-1] if ") SELECT" in nc else ""
+    tail = nc[nc.rfind("SELECT i ,") if "SELECT i ," in nc else nc.rfind("SELECT i,"):]
+    has_depth = re.search(r"trace\s*\([^)]*\bdepth\b[^)]*\)", nc) is not None and re.search(r"trace\s*\.\s*depth \+ 1", nc) is not None
+    picks_deepest = re.search(r"MAX\s*\(\s*depth\s*\)", tail) is not None and "GROUP BY i" in tail and not re.search(r"MIN\s*\(\s*safe", tail)
+    ctx.check(has_depth and picks_deepest, "scheduler.FILL_SAFE_UPDATE", "of several rows for one node the one from the topmost flagged ancestor (largest depth) is written",
+              "duplicate rows are merged with MIN (or without regard to depth): a flagged step below an unflagged step below a flagged step is seeded from the stale stored _safe of its creator, the stale 0 wins, all flags are cleared, and a step whose creators are all running or succeeded stays undispatched for ever", "depth carried through the recursion; MAX(depth) per node", where="scheduler.py FILL_SAFE_UPDATE")
     # seed expressions: COALESCE(creator_step._safe AND state IN (...) AND _holding = 0, 1)
     flat = re.sub(r"\s+", " ", sql)
     seeds = re.findall(r"COALESCE\( (creator_step\._safe(?:_ignoring_hold)? AND .*?), 1 \)", flat)
@@ -581,6 +590,7 @@ def _drop_trigger(name):
 
 
 MUTANTS = [
+    Mutant("safe-merge-by-min", "scheduler.py", replace_once("SELECT i, safe, safe_nh FROM (SELECT i, safe, safe_nh, MAX(depth) FROM trace GROUP BY i)", "SELECT i, MIN(safe), MIN(safe_nh) FROM trace GROUP BY i"), ("R-C10-4",)),
     Mutant("seed-from-flagged-creator", "scheduler.py", replace_once("    WHERE s._check_safe AND NOT COALESCE(creator_step._check_safe, 0)\n", "    WHERE s._check_safe\n"), ("R-C10-4",)),
     Mutant("revalidated-not-propagated", "step.py", in_function("Step.mark_completed", replace_once("                    file.set_state(FileState.BUILT)\n                    self.graph.mark_consuming_steps_pending(file)\n", "                    file.set_state(FileState.BUILT)\n")), ("R-C10-5",)),
     Mutant("when-narrowed-detached", "step.py", replace_once("AFTER UPDATE OF detached ON node\nWHEN OLD.detached != NEW.detached\nBEGIN\n    UPDATE step SET _check_ready = 1", "AFTER UPDATE OF detached ON node\nWHEN NEW.detached AND NOT OLD.detached\nBEGIN\n    UPDATE step SET _check_ready = 1"), ("R-C10-1",)),
